@@ -1,7 +1,7 @@
 (* C07: the leaf functions generated from the current source (coq/gen/Gen_C07_hash.v, from string_hash in
    private/hash_map.h) equal the leafs of the hash_map model (HashMap.v).  A source change that alters the hash
    breaks these lemmas. *)
-From CppcmsV Require Import Base.Tac Base.CSem Base.CSemFacts C07.Defs C07.HashMap gen.Gen_C07_hash.
+From CppcmsV Require Import Base.Tac Base.CSem Base.CSemFacts C07.Defs C07.HashMap C07.Ifc gen.Gen_C07_hash gen.Gen_C07_iface.
 Local Open Scope Z_scope.
 
 Lemma wrapu8_wraps8 z : 0 <= z < 256 -> wrapu 8 (wraps 8 z) = z.
@@ -26,4 +26,17 @@ Proof.
   unfold string_hash. rewrite link_hash_initial. generalize 0 as h.
   induction k as [|b k IH]; intros h Hk; [reflexivity|]. inversion Hk; subst.
   cbn [fold_left]. rewrite link_hash_update by assumption. apply IH; assumption.
+Qed.
+
+(* src/cache_interface.cpp: the constant infty and deadtime() as translated from the current source (coq/gen/Gen_C07_iface.v)
+   are the ones of the interface model (Ifc.v).  g_c07_deadtime takes the value read from time() as its second argument;
+   the Year-2038 branch (tmp+sec<tmp, which returns -1 in the lifted function where the source throws) is dead over Z:
+   for sec >= 0 the sum is never smaller than tmp. *)
+Lemma link_infty : g_c07_infty = infty.
+Proof. vm_compute. reflexivity. Qed.
+
+Lemma link_deadtime now sec : g_c07_deadtime sec now = deadtime now sec.
+Proof.
+  unfold g_c07_deadtime, deadtime. rewrite link_infty. cbv zeta.
+  destruct (Z.ltb_spec sec 0); [reflexivity|]. destruct (Z.ltb_spec (now + sec) now); [lia|reflexivity].
 Qed.
